@@ -23,6 +23,9 @@ numeric = Union[int, float]
 
 TACTICS_ORDER = [1, 2, 3, 4, 5]  # noqa: WPS407
 
+# Accuracy expected from the optimal values returned by the LP solver
+LP_ROUNDOFF_TOLERANCE = 1e-8
+
 
 class PolyhedralTerm(Term):
     """Polyhedral terms are linear inequalities over a list of variables."""
@@ -1120,7 +1123,9 @@ class PolyhedralTermList(TermList):  # noqa: WPS338
                 is_refinement = False
                 break
             else:
-                if -res["fun"] <= b_temp:  # noqa: WPS309
+                # the optimum comes from a floating-point LP solver: a constraint that is exactly tight
+                # (e.g., when comparing a termlist with itself) can be exceeded by the solver's round-off
+                if -res["fun"] <= b_temp + LP_ROUNDOFF_TOLERANCE:  # noqa: WPS309
                     logging.debug("Redundant constraint")
                 else:
                     is_refinement = False
